@@ -13,6 +13,16 @@ the read-only ones; no method uses `RLock`), so one method body is ONE atomic ev
 between the call's `inv` and `ret`. `NewLinkedList(elems…)` (:28-34) builds the list before anyone
 else can hold a reference; it is modelled as the first call (`t = 0`) with the same `pushElem` loop.
 
+Environment: the harness can itself hold `l.mtx` for reading (`env rlock` … `env runlock`, it reaches
+the unexported field by reflection). While it does, no method body that needs the write lock can
+run: `exec t` is disabled for the mutating methods. For the read-only methods (`Peek`, `PeekTail`,
+`IsEmpty`) the model is deliberately permissive (enabled also while the environment holds a read
+lock): the code takes the write lock for them too, but a read lock would be just as correct, and the
+property does not depend on it. This makes a mutating method that was downgraded to `RLock`
+deterministically visible (it returns while the environment still holds its read lock), independent
+of scheduling luck. `env rlock` is logged *after* the harness acquired the lock and `env runlock`
+*before* it releases it, so the interval in the log lies inside the real one.
+
 One *thread* = one API call, numbered in invocation order by the harness. A dereference of an id
 that is not a heap element is an explicit outcome (`LRes.panic`); `Props.no_panic` shows it is
 unreachable.
@@ -35,6 +45,11 @@ inductive LOp where
   | isEmpty
   | reset
 deriving DecidableEq, Repr
+
+/-- methods that only read (they could run under a read lock) -/
+def LOp.readOnly : LOp → Bool
+  | .peek | .peekTail | .isEmpty => true
+  | _ => false
 
 /-- `NewLinkedList` is only possible as the very first call -/
 def LOp.isInit : LOp → Bool
@@ -64,27 +79,48 @@ deriving DecidableEq, Repr
 structure St where
   mem : Mem := {}
   th : List TS := []
+  /-- number of read locks on `l.mtx` held by the environment (the harness) -/
+  envR : Nat := 0
 deriving DecidableEq, Repr
 
-/-- observables are exactly history events: `inv t <op>` / `ret t <result>` -/
-abbrev Obs := HEv LOp LRes
+/-- observables: history events `inv t <op>` / `ret t <result>`, and the environment's read lock -/
+inductive Obs where
+  | call (h : HEv LOp LRes)
+  | envRLock        -- `env rlock`   (logged after the harness acquired `l.mtx.RLock()`)
+  | envRUnlock      -- `env runlock` (logged before the harness calls `l.mtx.RUnlock()`)
+deriving DecidableEq, Repr
+
+/-- the history event of an observable (environment events are not part of the history) -/
+def Obs.toH : Obs → Option (HEv LOp LRes)
+  | .call h => some h
+  | _ => none
 
 inductive Ev where
   | inv (t : Nat) (op : LOp)
   | exec (t : Nat)               -- the method body, under `l.mtx`
   | ret (t : Nat) (r : LRes)
+  | envRLock
+  | envRUnlock
 deriving DecidableEq, Repr
 
 def Ev.obs : Ev → Option Obs
-  | .inv t op => some (.inv t op)
-  | .ret t r => some (.ret t r)
+  | .inv t op => some (.call (.inv t op))
+  | .ret t r => some (.call (.ret t r))
   | .exec _ => none
+  | .envRLock => some .envRLock
+  | .envRUnlock => some .envRUnlock
 
 def obsEv : Obs → Ev
-  | .inv t op => .inv t op
-  | .ret t r => .ret t r
+  | .call (.inv t op) => .inv t op
+  | .call (.ret t r) => .ret t r
+  | .envRLock => .envRLock
+  | .envRUnlock => .envRUnlock
 
-theorem obsEv_obs (o : Obs) : (obsEv o).obs = some o := by cases o <;> rfl
+theorem obsEv_obs (o : Obs) : (obsEv o).obs = some o := by
+  cases o with
+  | call h => cases h <;> rfl
+  | envRLock => rfl
+  | envRUnlock => rfl
 
 def parseNats : List String → Option (List Nat)
   | [] => some []
@@ -94,18 +130,20 @@ def parseBool (s : String) : Option Bool :=
   if s == "true" then some true else if s == "false" then some false else none
 
 def parseObs : List String → Option Obs
-  | "inv" :: t :: "new" :: vs => do pure (.inv (← t.toNat?) (.init (← parseNats vs)))
-  | ["inv", t, "push", v] => do pure (.inv (← t.toNat?) (.push (← v.toNat?)))
-  | ["inv", t, "pushfront", v] => do pure (.inv (← t.toNat?) (.pushFront (← v.toNat?)))
-  | ["inv", t, "pop"] => do pure (.inv (← t.toNat?) .pop)
-  | ["inv", t, "peek"] => do pure (.inv (← t.toNat?) .peek)
-  | ["inv", t, "peektail"] => do pure (.inv (← t.toNat?) .peekTail)
-  | ["inv", t, "isempty"] => do pure (.inv (← t.toNat?) .isEmpty)
-  | ["inv", t, "reset"] => do pure (.inv (← t.toNat?) .reset)
-  | ["ret", t, "ack"] => do pure (.ret (← t.toNat?) .ack)
-  | ["ret", t, "val", v, ok] => do pure (.ret (← t.toNat?) (.val (← v.toNat?) (← parseBool ok)))
-  | ["ret", t, "empty", b] => do pure (.ret (← t.toNat?) (.empty (← parseBool b)))
-  | ["ret", t, "panic"] => do pure (.ret (← t.toNat?) .panic)
+  | ["env", "rlock"] => some .envRLock
+  | ["env", "runlock"] => some .envRUnlock
+  | "inv" :: t :: "new" :: vs => do pure (.call (.inv (← t.toNat?) (.init (← parseNats vs))))
+  | ["inv", t, "push", v] => do pure (.call (.inv (← t.toNat?) (.push (← v.toNat?))))
+  | ["inv", t, "pushfront", v] => do pure (.call (.inv (← t.toNat?) (.pushFront (← v.toNat?))))
+  | ["inv", t, "pop"] => do pure (.call (.inv (← t.toNat?) .pop))
+  | ["inv", t, "peek"] => do pure (.call (.inv (← t.toNat?) .peek))
+  | ["inv", t, "peektail"] => do pure (.call (.inv (← t.toNat?) .peekTail))
+  | ["inv", t, "isempty"] => do pure (.call (.inv (← t.toNat?) .isEmpty))
+  | ["inv", t, "reset"] => do pure (.call (.inv (← t.toNat?) .reset))
+  | ["ret", t, "ack"] => do pure (.call (.ret (← t.toNat?) .ack))
+  | ["ret", t, "val", v, ok] => do pure (.call (.ret (← t.toNat?) (.val (← v.toNat?) (← parseBool ok))))
+  | ["ret", t, "empty", b] => do pure (.call (.ret (← t.toNat?) (.empty (← parseBool b))))
+  | ["ret", t, "panic"] => do pure (.call (.ret (← t.toNat?) .panic))
   | _ => none
 
 /-! ## The method bodies (`none` = dereference of a non-element = panic) -/
@@ -168,14 +206,18 @@ def step (s : St) : Ev → Option St
   | .exec t =>
     match s.th[t]? with
     | some (.inv op) =>
-      match body s.mem op with
-      | some (m, r) => some { mem := m, th := s.th.set t (.done op r) }
-      | none => some { s with th := s.th.set t (.done op .panic) }
+      if s.envR = 0 ∨ op.readOnly = true then      -- the write lock needs: no reader
+        match body s.mem op with
+        | some (m, r) => some { s with mem := m, th := s.th.set t (.done op r) }
+        | none => some { s with th := s.th.set t (.done op .panic) }
+      else none
     | _ => none
   | .ret t r =>
     match s.th[t]? with
     | some (.done op r') => if r = r' then some { s with th := s.th.set t (.retd op r) } else none
     | _ => none
+  | .envRLock => some { s with envR := s.envR + 1 }
+  | .envRUnlock => if 0 < s.envR then some { s with envR := s.envR - 1 } else none
 
 def TS.cand (t : Nat) : TS → List Ev
   | .inv _ => [.exec t]
